@@ -29,7 +29,7 @@ class Worker:
         self.proc = subprocess.Popen(
             [self.binary, "--stack-mb", str(self.stack_mb), "--fds", str(r_req), str(w_resp)],
             cwd=self.cwd,
-            env=self.env,
+            env=self._env(),
             stdin=subprocess.DEVNULL,
             stdout=subprocess.DEVNULL,
             stderr=subprocess.DEVNULL,
@@ -42,6 +42,18 @@ class Worker:
         self.r = r_resp
         self._buf = b""
         self.spawns += 1
+
+    def _env(self):
+        e = dict(os.environ if self.env is None else self.env)
+        if self.env is not None:
+            for k in ("PATH", "HOME"):
+                if k in os.environ:
+                    e.setdefault(k, os.environ[k])
+        # keep the heap mapped between compilations (page faults are the bottleneck in this VM)
+        e.setdefault("MALLOC_TRIM_THRESHOLD_", "2000000000")
+        e.setdefault("MALLOC_TOP_PAD_", "67108864")
+        e.setdefault("MALLOC_MMAP_THRESHOLD_", "1073741824")
+        return e
 
     def close(self):
         try:
@@ -115,12 +127,17 @@ class Worker:
             return r["results"][0][0]
         return r
 
-    def batch(self, specs, timeout=None):
-        """Independent compilations, each on a fresh thread. If the worker dies/times out in the
-        batch, every spec is re-run alone so the failure is attributed to the right one."""
+    def batch(self, specs, timeout=None, fresh=False):
+        """Independent compilations. Default: executed one after the other on the worker's persistent
+        compile thread (recycled every 400 compilations); fresh=True: each on a brand-new thread.
+        If the worker dies/times out in the batch, every spec is re-run alone (fresh thread) so the
+        failure is attributed to the right one."""
         if not specs:
             return []
-        r = self.request({"batch": specs}, timeout or self.timeout * 2)
+        req = {"batch": specs}
+        if fresh:
+            req["fresh"] = True
+        r = self.request(req, timeout or self.timeout * 2)
         if "batch" in r:
             return r["batch"]
         return [self.compile(s, timeout) for s in specs]
